@@ -26,6 +26,7 @@ OWNERS = [
     (r"konst/src/slice/slice_iter_methods\.rs", ["C08", "C10"]),
     (r"konst/src/slice/cmp\.rs", ["C16"]),
     (r"konst/src/slice\.rs", ["C02", "C08"]),
+    (r"konst_kernel/src/slice/slice_for_konst", ["C02", "C20", "C08"]),
     (r"konst_kernel/src/slice", ["C02", "C08", "C03"]),
     (r"konst_kernel/src/into_iter/slice_into_iter\.rs", ["C08", "C10"]),
     (r"konst_kernel/src/into_iter/range_into_iter\.rs", ["C09", "C10"]),
@@ -35,11 +36,15 @@ OWNERS = [
     (r"konst/src/string/(splitting|split_terminator_items)\.rs", ["C06", "C10"]),
     (r"konst/src/string/chars_methods\.rs", ["C07", "C10"]),
     (r"konst/src/string/pattern\.rs", ["C04", "C05", "C06"]),
+    (r"konst/src/string/split_once\.rs", ["C04", "C14", "C06"]),
+    (r"konst_kernel/src/macros/control_flow\.rs", ["C09", "C19", "C10"]),
     (r"konst/src/string/concatenation\.rs", ["C20"]),
     (r"konst/src/string\.rs", ["C03", "C04", "C05", "C06", "C07", "C14", "C20"]),
+    (r"konst_kernel/src/string/string_for_konst", ["C20", "C03"]),
     (r"konst_kernel/src/string", ["C03", "C07", "C04", "C05", "C06", "C14"]),
     (r"konst(_kernel)?/src/chr", ["C07"]),
     (r"konst/src/parsing/primitive_parsing\.rs", ["C12", "C13", "C14"]),
+    (r"konst/src/primitive/cmp", ["C16"]),
     (r"konst/src/primitive", ["C12"]),
     (r"konst/src/parsing", ["C13", "C14", "C12", "C18"]),
     (r"konst/src/macros/parser_method\.rs", ["C18"]),
@@ -162,6 +167,7 @@ def setup_worker(i):
     os.makedirs(w, exist_ok=True)
     if not os.path.exists(f"{w}/repo"):
         sh(f"git -C /repo worktree add -f --detach {w}/repo HEAD")
+    sh(f"cp /repo/Cargo.lock {w}/repo/Cargo.lock")  # git-ignored in /repo, needed by the generated workspaces
     sh(f"rsync -a --exclude .git --exclude target --exclude generated --exclude seeded --exclude mutants --exclude replays --exclude evidence /verif/ {w}/verif/")
     sh(f"grep -rlE '/repo' {w}/verif/check {w}/verif/lib {w}/verif/harness --include='*' | grep -v '/target/' | xargs sed -i 's#\\([^0-9a-z]\\)/repo#\\1{w}/repo#g'")
     return w
